@@ -155,10 +155,10 @@ P["C07"] = {
 
 # ---------------------------------------------------------------- C10
 def c10(**kw): return job("H_C10_end", conc=True, reach=["checked"], **kw)
-c10q = [c10(u=1, s=0, fault=f) for f in (0, 1, 2)] + [c10(u=0, s=1, fault=f, hmode=h) for f in (0, 2) for h in (0, 1, 2)] + [c10(u=0, s=1, fault=1, hmode=2), c10(u=1, s=1, fault=0, hmode=0)] + [c10(u=0, s=1, fault=f, hmode=1, rst=1) for f in (0, 2)] + [c10(u=1, s=0, fault=f, orphan=2) for f in (0, 1, 2)] + [c10(u=0, s=2, fault=f, hmode=h) for f, h in ((0, 0), (0, 1), (2, 1))]
+c10q = [c10(u=1, s=0, fault=f) for f in (0, 1, 2)] + [c10(u=1, s=0, fault=f, tmo=1) for f in (0, 1, 2)] + [c10(u=0, s=1, fault=f, hmode=h) for f in (0, 2) for h in (0, 1, 2)] + [c10(u=0, s=1, fault=1, hmode=2), c10(u=1, s=1, fault=0, hmode=0)] + [c10(u=0, s=1, fault=f, hmode=1, rst=1) for f in (0, 2)] + [c10(u=1, s=0, fault=f, orphan=2) for f in (0, 1, 2)] + [c10(u=0, s=2, fault=f, hmode=h) for f, h in ((0, 0), (0, 1), (2, 1))]
 P["C10"] = {
  "title": "server connections end cleanly: Serve returns, handlers cancelled, no leaks",
- "bounds": "u unary + s streaming cooperative handlers in flight (u <= 1, s <= 2 quick; thorough up to (2,1),(1,2)); fault = read error / write error / Server.Stop, racing with the request script and the handlers (every position); streaming handlers blocked in RecvMsg, on their context, or sending; optionally two stray bodies for never-opened streams first (each refused with a reset of the server's own); all interleavings; goroutine census at quiescence",
+ "bounds": "u unary + s streaming cooperative handlers in flight (u <= 1, s <= 2 quick; thorough up to (2,1),(1,2)); fault = read error / write error / Server.Stop, racing with the request script and the handlers (every position); streaming handlers blocked in RecvMsg, on their context, or sending; optionally two stray bodies for never-opened streams first (each refused with a reset of the server's own); all interleavings; goroutine census at quiescence; the unary call optionally carries its own 1 h timeout (tmo=1)",
  "assumptions": GEN_ASSUME + ["handlers are cooperative: they return once their context is done"],
  "quick": c10q,
  "thorough": c10q + [c10(u=1, s=1, fault=2, hmode=2), c10(u=2, s=0, fault=0), c10(u=2, s=0, fault=2), c10(u=0, s=2, fault=0, hmode=0)],
